@@ -131,17 +131,23 @@ static void gen_roundtrip(G &g, bool isal) {
     bool free_run = g.world.chance(1, 4);  // fault-free configuration, run separately
     // a bystander: a second live instance (same backend family more often than not, other shape) that is used with the
     // same loss pattern or destroyed in the middle of the main instance's traffic - other instances must not matter
-    bool by = !free_run && g.world.chance(1, 5), by_done = false; Cfg bc;
+    bool by = !free_run && g.world.chance(1, 5), by_done = false, twin = false; Cfg bc;
     if (by) {
         bc = g.world.chance(2, 3) ? (c.be == BE_XOR ? xor_shape_index((int) g.world.below(XOR_GOLDEN_N)) : rs_shape(g.world, c.be)) : any_coded_shape(g.world);
         if (c.be != BE_XOR && bc.be == c.be && g.world.chance(1, 2)) { bc.k = c.k; if (bc.m == c.m) bc.m = c.m > 1 ? c.m - 1 : c.m + 1; if (bc.k + bc.m > 32) bc.m = 32 - bc.k; bc.hd = bc.m; }
+        // the two ISA-L adapters share their code: the other adapter with the very same (k, m) is the neighbour most likely to be confused with this one
+        if (be_is_isal(c.be) && g.world.chance(1, 2)) { bc = c; bc.be = c.be == BE_IV ? BE_IC : BE_IV; twin = true; }
         bc.ct = c.ct;
         g.ops.push(create_op(1, bc));
         Json p = put_op(g, 9, 1, bc); p.set("len", (i64) g.data.range(1, 2000)); g.ops.push(p);
     }
     int nobj = g.plan.chance(1, 4) ? 2 : 1;
+    // callers with small thread stacks and large objects: nothing the size of a fragment may live on the stack
+    bool bigfrag = (g.index & 3) == 2 && c.k <= 12 && g.data.chance(1, g.thorough ? 10 : 25);
     for (int o = 0; o < nobj; o++) {
-        g.ops.push(put_op(g, o, 0, c));
+        Json po = put_op(g, o, 0, c);
+        if (bigfrag && o == 0) po.set("len", (i64) ((u64) c.k * (u64) g.data.range(800 * 1024, 1200 * 1024) - (u64) g.data.range(0, 5)));
+        g.ops.push(po);
         int gets = (int) g.plan.range(1, 3);
         for (int i = 0; i < gets; i++) {
             u64 s = free_run ? full(c.n()) : survivors_within(g, c);
@@ -158,6 +164,13 @@ static void gen_roundtrip(G &g, bool isal) {
                 }
             }
             Json j = mk("GET"); j.set("obj", o).set("slot", 0).set("force", g.faults.chance(1, 3) ? 1 : 0).set("dl", delivery(g, s, c.n(), !free_run));
+            // the writer's switch is a property of the writer: a reader runs with whatever its own environment holds
+            if (g.faults.chance(1, 10)) { static const char *ev[] = {"1", "0", "yes", ""}; if (g.faults.chance(1, 4)) j.set("env", Json()); else j.set("env", ev[g.faults.below(4)]); }
+            if (isal && g.plan.chance(1, 12)) {   // a refused create of either adapter while this instance is live: the shared plug-in must stay loaded
+                Cfg bad = c; bad.be = g.plan.chance(1, 2) ? BE_IV : BE_IC; static const int bw[] = {5, 1, 7, 63, 64, 100}; bad.w = bw[g.plan.below(6)];
+                g.ops.push(create_op(7, bad, -1)); g.ops.push(mk("DESTROY").set("slot", 7));
+            }
+            if (twin && g.plan.chance(1, 2)) { Json t = mk("GET"); t.set("obj", 9).set("slot", 1).set("force", 0).set("dl", delivery(g, s, c.n(), false)); g.ops.push(t); }
             if (isal_faults && g.faults.chance(1, 2)) { Json f = mk("ISAL"); f.set("fail_at", (int) g.faults.range(1, 2)).set("clobber", (int) g.faults.below(2)); g.ops.push(f); g.ops.push(j); }   // dependency reports a singular matrix, then the same call again
             g.ops.push(j);
             if (g.plan.chance(1, 8) || isal_faults) g.ops.push(j);   // the same call again: results must not depend on what a previous call left behind
@@ -172,6 +185,9 @@ static void gen_roundtrip(G &g, bool isal) {
             else if (x < 17 || g.prop == "C01" || g.prop == "C19") dest = (int) g.plan.below(c.n());
             else { static const int bad[] = {-1, 0, 1, 2, INT32_MAX, INT32_MIN}; int b = bad[g.plan.below(6)]; dest = (b >= 0 && b <= 2) ? c.n() + b : b; }
             j.set("dest", dest).set("oal", pick_al(g.faults)).set("dl", delivery(g, s, c.n(), !free_run));
+            if (twin && dest >= 0 && dest < c.n() && g.plan.chance(1, 2)) {   // the same loss set and destination on the twin, immediately before
+                Json t = mk("REPAIR"); t.set("obj", 9).set("slot", 1).set("dest", dest).set("oal", 16).set("dl", delivery(g, s, c.n(), false)); g.ops.push(t);
+            }
             if (isal_faults && g.faults.chance(1, 2)) { Json f = mk("ISAL"); f.set("fail_at", 1).set("clobber", (int) g.faults.below(2)); g.ops.push(f); g.ops.push(j); }
             g.ops.push(j);
             if (g.plan.chance(1, 8) || isal_faults) g.ops.push(j);
@@ -191,8 +207,19 @@ static void gen_c02(G &g) {
         c = small[g.index % 11]; sweep = true; sweep_mask = (g.index / 11) & full(c.n());
     }
     c.ct = g.world.chance(1, 2) ? 2 : 1;
+    // callers with small thread stacks and large objects: nothing the size of a fragment may live on the stack
+    bool bigfrag = !sweep && (g.index & 3) == 2 && g.data.chance(1, g.thorough ? 10 : 25);
+    bool big3 = false;
+    if (bigfrag && g.data.chance(1, 2)) {   // the decoder path with the most scratch space: a distance-4 XOR code that lost three data fragments
+        for (int tries = 0; tries < 40; tries++) { Cfg x = xor_shape_index((int) g.world.below(XOR_GOLDEN_N)); if (x.hd == 4 && x.k <= 12 && x.k >= 6) { x.ct = c.ct; c = x; big3 = true; break; } }
+    }
+    if (c.k > 12) bigfrag = false;
     g.ops.push(create_op(0, c));
-    g.ops.push(put_op(g, 0, 0, c));
+    {
+        Json po = put_op(g, 0, 0, c);
+        if (bigfrag) po.set("len", (i64) ((u64) c.k * (u64) g.data.range(800 * 1024, 1200 * 1024) - (u64) g.data.range(0, 5)));
+        g.ops.push(po);
+    }
     int n = c.n(), tol = tolerance(c);
     int rounds = (int) g.plan.range(2, 5);
     for (int i = 0; i < rounds; i++) {
@@ -210,6 +237,7 @@ static void gen_c02(G &g) {
             lost |= random_subset(r, n, e - ed) & ~full(c.k); s = full(n) & ~lost;
         }
         if (sweep && i == 0) s = sweep_mask;
+        if (big3 && i < 2) s = full(n) & ~random_subset(r, c.k, 3);
         if (r.chance(1, 2)) {
             Json j = mk("GET"); j.set("obj", 0).set("slot", 0).set("force", r.chance(1, 4) ? 1 : 0).set("dl", delivery(g, s, n, true));
             g.ops.push(j);
